@@ -234,6 +234,9 @@ def run(ctx):
     for i in range(ctx.scale(400, 5000)):
         k = rng.randrange(0, 7)
         beats = sorted(rng.sample(range(0, 48 * 400), k))
+        shape = rng.random()
+        if shape < .2: rng.shuffle(beats)                                   # an event list need not be in beat order
+        elif shape < .35 and beats: beats = beats + [rng.choice(beats) for _ in range(rng.randrange(1, 3))]   # two rows on one beat
         rows = []
         for n in beats:
             digits = rng.randrange(0, 7)
